@@ -31,7 +31,7 @@ fn target(h: &H) -> Option<*const Tok> {
     }
 }
 
-fn obs(pool: &[H], mon: &mut Mon, k: usize) -> Vec<i64> {
+fn obs(pool: &[H], tracked: &[std::sync::Weak<Tok>], mon: &mut Mon, k: usize) -> Vec<i64> {
     let mut row = Vec::new();
     for h in pool {
         let kind = match h {
@@ -49,6 +49,14 @@ fn obs(pool: &[H], mon: &mut Mon, k: usize) -> Vec<i64> {
     }
     // monitor: strong count of every allocation == number of live handles pointing at it
     let ptrs: Vec<*const Tok> = pool.iter().filter_map(target).collect();
+    // every handle dereferences to an allocation the history created (a Weak taken at creation still names it): a conversion never moves the value elsewhere
+    for p in &ptrs {
+        if !tracked.iter().any(|w| w.as_ptr() == *p) { mon.fail(format!("op{} a handle points at an allocation that no creation op made (the value was moved to another allocation: Weak references to the original no longer see it)", k)); break; }
+    }
+    for w in tracked {
+        let n = ptrs.iter().filter(|q| **q == w.as_ptr()).count();
+        if w.strong_count() != n { mon.fail(format!("op{} Weak::strong_count of an allocation is {} but {} live handles point at it", k, w.strong_count(), n)); break; }
+    }
     for p in &ptrs {
         let n = ptrs.iter().filter(|q| *q == p).count() as i64;
         let (c, _) = unsafe { count_of(*p) };
@@ -159,6 +167,7 @@ pub fn run_threads(params: &[i64], ops: &Rows, mon: &mut Mon) -> Rows {
 fn exec(ops: &Rows, roots: Option<&[Option<Arc<Tok>>]>, mon: &mut Mon) -> Rows {
     let mut out: Rows = Vec::new();
     let mut pool: Vec<H> = Vec::new();
+    let mut tracked: Vec<std::sync::Weak<Tok>> = Vec::new();      // one Weak per allocation, taken when it is created
     let mut tags: Vec<i64> = Vec::new();     // module tag per slot (id 210)
     let tags_on = TAGS_ON.load(SeqCst) && roots.is_none();
     let _ = take_drops();
@@ -229,12 +238,15 @@ fn exec(ops: &Rows, roots: Option<&[Option<Arc<Tok>>]>, mon: &mut Mon) -> Rows {
         let row = match res {
             None => vec![c, 0, -1],
             Some(None) => vec![c, 1, -1],
-            Some(Some(h)) => { pool.push(h); tags.push(if c == 5 { 0 } else { src_tag }); vec![c, 1, pool.len() as i64 - 1] }
+            Some(Some(h)) => {
+                if roots.is_none() && matches!(c, 0 | 1 | 2) { if let Some(p) = target(&h) { let a = ManuallyDrop::new(unsafe { Arc::from_raw(p) }); tracked.push(Arc::downgrade(&a)); } }
+                pool.push(h); tags.push(if c == 5 { 0 } else { src_tag }); vec![c, 1, pool.len() as i64 - 1]
+            }
         };
         out.push(row);
         if tags_on { let _ = take_drops(); out.push(vec![F_CLONES.load(SeqCst) - fc0, F_DROPS.load(SeqCst) - fd0]); k += 1; continue; }
         match roots {
-            None => { out.push(take_drops()); out.push(obs(&pool, mon, k)); }
+            None => { out.push(take_drops()); out.push(obs(&pool, &tracked, mon, k)); }
             Some(r) => { let ds = take_drops(); if !ds.is_empty() { mon.fail(format!("op{} destroyed payloads {:?} although their roots are alive", k, ds)); } out.push(obs_kinds(&pool, r, mon, k)); }
         }
         k += 1;
